@@ -214,7 +214,22 @@ def check_diatonic(ctx, case):
     ctx.note_case(T.KEY_SIG[key] != 0, ["step:%d" % step, "wraps" if T.LETTERS.index(note[0]) + step >= 7 else "no-wrap"])
 
 
-CHECKS = {"key": check_key, "signum": check_signum, "candidate": check_candidate, "diatonic": check_diatonic}
+def check_order(ctx, case):
+    """the key notes do not depend on which other keys were asked for before (memo table transparency across keys)"""
+    first = case[:-1]
+    last = case[-1]
+    _clear_cache()
+    for k in first:
+        ctx.ok("get_notes", keys.get_notes, k)
+    ns = ctx.ok("get_notes", keys.get_notes, last)
+    if not failed(ns):
+        exp = T.key_notes(last)
+        ok = len(ns) == 7 and all(T.valid(x) and x[0] == e[0] and T.pc(x) == T.pc(e) for x, e in zip(ns, exp))
+        ctx.check(ok, "get_notes/depends-on-earlier-keys", lambda: "after get_notes%r, get_notes(%r) -> %r, expected %r" % (tuple(first), last, ns, exp))
+    ctx.note_case(True, ["order:%d-before" % len(first)])
+
+
+CHECKS = {"order": check_order, "key": check_key, "signum": check_signum, "candidate": check_candidate, "diatonic": check_diatonic}
 
 
 def _shard(seq, shard, nshards):
@@ -224,6 +239,13 @@ def _shard(seq, shard, nshards):
 def sub_keys(ctx, shard, n):
     ctx.exhaustive("keys: 15 major + 15 minor", "all", len(T.ALL_KEYS))
     ctx.enumerate("key", check_key, T.ALL_KEYS)
+
+
+def sub_order(ctx, shard, n):
+    pairs = [[a, b] for a in T.ALL_KEYS for b in T.ALL_KEYS if a != b]
+    ctx.exhaustive("get_notes(B) after a cold get_notes(A)", "all ordered pairs of the 30 keys", len(pairs))
+    ctx.enumerate("order", check_order, pairs)
+    ctx.given("order", check_order, st.lists(st.sampled_from(T.ALL_KEYS), min_size=3, max_size=8), 200 if ctx.quick else 3000)
 
 
 def sub_signums(ctx, shard, n):
@@ -268,6 +290,7 @@ def sub_diatonic(ctx, shard, n):
 
 
 SUBS = [
+    Sub("order", sub_order),
     Sub("keys", sub_keys),
     Sub("signums", sub_signums),
     Sub("candidates", sub_candidates, quick=1, thorough=4),
